@@ -507,13 +507,18 @@ def main(ctx):
     progs = small_programs()
     depth = 1 if ctx.tier == 'quick' else 2
     split = 1 if ctx.tier == 'quick' else 16
-    shards = [(pi, depth, k, split) for pi in range(len(progs)) for k in range(split)]
+    # (two preemptions for the port kinds of the property statement; the device doubles added later - keep, wire-direct -
+    # and the programs that can be preempted inside the codec get one preemption plus the windowed pairs below)
+    def depth_of(prog):
+        return 1 if (prog['port'] in ('keep', 'wire-direct') or prog.get('deep')) else depth
+    shards = [(pi, depth_of(progs[pi]), k, split) for pi in range(len(progs)) for k in range(split)]
     ctx.pmap('enum_shard', shards)
     ctx.extra['programs_enumerated'] = len(progs)
     ctx.extra['preemption_bound'] = depth
     ctx.exhaustive = True
     ctx.extra['exhaustive_scope'] = (f'every schedule with at most {depth} preemption(s) and every starting thread of '
-                                     f'{len(progs)} fixed small programs; larger programs / denser schedules sampled')
+                                     f'{len(progs)} fixed small programs (the later device doubles keep / wire-direct and the '
+                                     f'codec-preemptible programs: at most 1); larger programs / denser schedules sampled')
     if ctx.tier == 'quick':
         ctx.pmap('window_shard', [(w, k, 8) for w in (0, 1) for k in range(8)])
         ctx.pmap('triple_shard', [(w, k, 4) for w in (0, 1) for k in range(4)])
